@@ -40,7 +40,8 @@ class Sim:
     def __exit__(self, *a):
         self.close()
 
-    def server(self, tun=None, domain=None, password=None, extra=(), name="srv", ips=(SERVER_IP, SERVER_IP6), password_on_stdin=False):
+    def server(self, tun=None, domain=None, password=None, extra=(), name="srv", ips=(SERVER_IP, SERVER_IP6), password_on_stdin=False,
+               stdin_closed=False):
         if tun:
             self.tun_net = tun
         if domain:
@@ -56,7 +57,7 @@ class Sim:
         elif self.password and b"\0" not in self.password:
             argv += ["-P", self.password]
         argv += [self.tun_net, self.domain]
-        return self.k.spawn(name, "server", argv, list(ips), env=env, san_env=self.env, stdin_data=stdin_data)
+        return self.k.spawn(name, "server", argv, list(ips), env=env, san_env=self.env, stdin_data=stdin_data, stdin_closed=stdin_closed)
 
     def client(self, name, ip, nameserver, opts=(), password=None, domain=None):
         pw = self.password if password is None else password
